@@ -8,8 +8,38 @@ claim('C12',
       'Decides the structural clauses that make header fallback possible: checksum covers every header field (both formats); no assertion/panic on header bytes before the checksum test of the same header; a header is selected only behind its own validity test and both can be selected; images sealed last; previous snapshot pages kept pending. Does not decide checksum collision resistance or the rest of open.',
       TB + 'Assumes damage confined to one header page.',
       'taint/control-dependence rule over MIR, field-coverage table rule, dominance rules', '§5 C12')
-for p in ('C05','C06','C07','C08','C13','C14','C15','C16'):
-    na(p, 'check under construction in this round (rules designed in DESIGN.md §5; not yet registered)')
+claim('C05',
+      'Page accounting over histories is a value invariant and is not decided. Decides bookkeeping-order, pointer and serialiser clauses that, when broken, yield a malformed file for some history: free(old list) -> size -> allocate -> snapshot order and one snapshot for count and list; header num_pages / freelist_page / root derived from the allocator and the spill; commit writes exactly the allocation map; every element and page-header field is assigned and only written fields are read; every stored page kind is handled by the built-in check and the tree walkers; every run length is overflow + 1; free-set discipline.',
+      TB + 'The undecided remainder (exactly-once reachability, key order, merge/split correctness, the two known accounting defects) is the bulk of the property.',
+      'dominance / data-dependence rules over MIR, exhaustiveness against type facts, sibling-agreement rules', '§5 C05')
+claim('C06',
+      'Effect discipline over the whole call graph: file writes/growth/remap reachable only from Tx::commit and OpenOptions::open among all public entries and Drop impls; writes in open restricted to a fresh (create_new) or empty file, nothing truncates; the shared free list changes only in commit (behind the header write) and DBInner::open; every public method that can reach a state-mutating primitive tests the writable bit first and returns ReadOnlyTx; every carrier takes its writable bit from the transaction. Does not decide that a call returning another error leaves the overlay untouched.',
+      TB + 'Logical-state fields and cache exclusions are listed in rules/c06.py.',
+      'call-graph reachability with constant-bool specialisation, field-effect (who-may-mutate) analysis, dominance of the writable guard', '§5 C06')
+claim('C07',
+      'Decides the routing of reads inside a write transaction: overlay lookup consults the page->node map before the mapped page; every function reachable from the read API dereferences mapped pages only inside the overlay lookup; cursors hold ids/indices only; bucket views are built from the committed header root only at begin; range starts are decided by comparing the current key. Does not decide which entries come back (e.g. the known early stop on emptied leaves).',
+      TB + 'The undecided remainder is the bulk of the property.',
+      'call-graph reachability rules, control-dependence rule, type facts', '§5 C07')
+claim('C08',
+      'Order and exactly-once of iteration are index arithmetic and are not decided. Decides: both range bounds consulted, Included/Excluded have their own arms reading the payload and comparing differently; start arms compare the current key with the bound; no unguarded `len - k` reachable from the iterator API; filters return None only when the inner iterator is exhausted; seek clears next_called; a cursor index is advanced only under a length test.',
+      TB + 'The undecided remainder is the bulk of the property.',
+      'switch-arm exhaustiveness and def-use rules over MIR, guarded-arithmetic rule over all functions reachable from the iterator API', '§5 C08')
+claim('C13',
+      'Decides where the advisory lock is taken and how long it lives: blocking lock_exclusive with checked result dominates every map creation and header read (and every write of the creation branch) in the trace of OpenOptions::open; the locked File is the one stored in DBInner.file; DBInner is built only in DBInner::open and owned only through the Arc in DB; no unlock / try_clone / raw-fd calls. One known finding (creation writes precede the lock). Does not decide flock semantics or waiting behaviour.',
+      TB + 'Assumes flock(LOCK_EX) semantics.',
+      'dominance over the inlined open trace, provenance and zero-expected call rules with positive control', '§5 C13')
+claim('C14',
+      'The compile-time half is decided exactly by rustc: 91 client programs (carrier x escape route, short-lived keys, threads, auto traits, use after commit) must be rejected with the expected error code while their twins (differing only by the offending lines) and 5 positive controls compile. The run-time half is replaced by a signature rule over the whole public surface (byte-capable outputs bounded by the transaction borrow; carrier parameters discovered by propagating the &Tx borrow through all signatures) with a variant-sensitive flow rule for rejected signatures, plus: unconstrained-lifetime producers are private, commit consumes the transaction.',
+      TB + 'Witnesses are type-checked (never run) with the nightly toolchain.',
+      'compile_fail witnesses with compiling twins (borrow checker / trait solver as oracle) + signature/region analysis + MIR flow rule', '§5 C14, §1.2')
+claim('C15',
+      'The format half is a table comparison and is decided exactly: layout_of of the six on-disk structs, format constants, ordered checksum recipes (hasher, field order, encoding, width) of current and legacy header, and creation-image constants equal format_pinned.json (taken from the pinned release); header selection tries the current format first and reaches the legacy validation; the legacy conversion and the commit header image copy every field from its namesake; a header is used only behind a page-size comparison that refuses a mismatch; serialiser/reader field agreement. Does not decide that a file opens with identical logical contents.',
+      TB + 'format_pinned.json was generated from the pinned commit and cross-checked.',
+      'layout/constant/recipe table comparison (rustc layout_of, const eval) + dominance and copy-provenance rules over MIR', '§5 C15, §1.3')
+claim('C16',
+      'Equality of results across the configuration product is a run-time comparison and is not decided. Decides: every public store of a caller-supplied page size is dominated by a divisibility test against the alignment of Page that refuses other values; the strict-mode check runs after data writes/growth/remap and before the header write, under the flag; growth is decided from num_pages*pagesize vs file length after the final high-water mark, the new size derives from both, and the transaction Pages are replaced from the new map.',
+      TB + 'The undecided remainder is the bulk of the property (e.g. rounding arithmetic of the growth step).',
+      'dominance / data-dependence rules over MIR and the commit trace', '§5 C16')
 claim('C03',
       'Decides the bookkeeping clauses that pin a reader snapshot for all histories: release bound read from / tested against the open-reader registry inside its critical section; readers register exactly the id of the Meta they keep; the registry is mutated only by order-preserving single-element operations (push is followed by sort); Drop removes only the own entry of read-only transactions; every transaction owns an Arc of an immutable map and no pointer into the map is made mutable; free-set discipline. Does not decide the comparison inside release or reuse arithmetic.',
       TB + 'Assumes transaction ids are monotone.',
